@@ -13,7 +13,7 @@ from .. import core, gen, ohist, specs
 from .. import tdfref as R
 
 PROP = "C16"
-RULE = ("states = (class, frame count, start empty|pre-filled, number of tracks 0..4) reached by BFS to the fixpoint; "
+RULE = ("[plus, per class, a 200 000-frame block with add / list assignment of tracks off by one either way] " +"states = (class, frame count, start empty|pre-filled, number of tracks 0..4) reached by BFS to the fixpoint; "
         "~55 ops per state (8 adds, 47 assignments); oracle: refused => exception and tracks/iteration/encoding "
         "unchanged, accepted => exactly the new list; invariant: every track has the block's frame count; non-trivial "
         "= state with >= 1 track (prior content)")
